@@ -162,6 +162,16 @@ Proof.
 Qed.
 Print Assumptions C46_mode_follows_configuration.
 
+(* the row factory in effect is the one that builds the rows, on the ordinary path and on the continuous-paging path *)
+Theorem C46_row_factory_builds_rows : forall m k st pr se t pg pv f cont, effective m k st pr se t pg pv = Some f ->
+  rows_built_by f cont = match m with Legacy => d_rowf se | Profiles => p_rowf pr end
+  /\ (continuous_in_effect m cont = true -> m = Profiles).
+Proof.
+  intros m k st pr se t pg pv f cont H. destruct (effective_common _ _ _ _ _ _ _ _ _ H) as (_ & _ & _ & _ & R & _).
+  split; [exact R|]. destruct m; cbn; [discriminate | reflexivity].
+Qed.
+Print Assumptions C46_row_factory_builds_rows.
+
 Example C46_nonvacuous :
   let st := mkStmt (Some 6) None None (FSet (Some 50)) (Some 9) true in
   let pr := mkProf 10 (Some 8) 20 (Some 30) 40 41 42 in
